@@ -767,6 +767,18 @@ func classify(c Case) (bool, []string) {
 				if strings.ContainsAny(plain, `"'`) {
 					add("text:quote")
 				}
+				if i := strings.Index(plain, "{{"); i >= 0 {
+					add("text:unclosed-{{")
+					if strings.ContainsAny(plain[i:], "<>&") {
+						add("text:unclosed-{{-then-special")
+					}
+					if inside(n, "pre") {
+						add("pre:unclosed-{{-then-special")
+					}
+				}
+				if strings.Contains(plain, "}}") {
+					add("text:lone-}}")
+				}
 				if hasWideSpace(plain) {
 					add("text:nbsp")
 				}
